@@ -296,6 +296,8 @@ impl<T: InternalTimeSyncController> TimeSyncController for TimeSyncControllerWra
         let mut messages_for_system = self.messages_for_system.lock().unwrap().take().unwrap();
         let mut sleeper = std::pin::pin!(SingleshotSleep::new_disabled());
         loop {
+            #[cfg(all(test, pendulum_project_ntpd_rs_verif))]
+            verif_probe::sched_point().await;
             tokio::select! {
                 Some((clock_id, message)) = messages_for_system.recv() => {
                     match message {
@@ -701,3 +703,7 @@ mod tests {
         );
     }
 }
+
+#[cfg(all(test, pendulum_project_ntpd_rs_verif))]
+#[path = "/verif/harness/ntp_proto/probe_algorithm.rs"]
+pub(crate) mod verif_probe;
